@@ -258,11 +258,18 @@ class Result:
         s.obligations = 0; s.discharged = 0; s.theorems = []; s.extra = {}
     def slice(s, name, cases, distinct, samples, dist, rule, disagreements=()):
         s.cases += cases; s.distinct += distinct; s.samples += list(samples)[:3]; s.dist[name] = dist; s.rules.append(f"{name}: {rule}")
-        known = load_known()
+        known = load_known(); trace_only = []
         for d in sorted(disagreements, key=lambda x: len(str(x.get("program", "")))):
             k = match_known(s.pid, d, known)
             if k: s.known_hits.setdefault(k["id"], (k, d))
+            elif d.get("which") == ["ev"]: trace_only.append(d)
             else: s.failing.append(dict(slice=name, **d))
+        if trace_only:
+            # result, output and input consumption agree and only the observer event trace differs from the model's: the implementation no longer
+            # takes the same evaluation steps as the machine the theorems are about.  That breaks the TIE, it is not by itself a failing input.
+            ex = trace_only[0]
+            s.problem("correspondence", f"slice {name}: the observer event trace differs from the model's on {len(trace_only)} program(s) while result, stdout and stdin agree; "
+                                        f"shortest: {ex.get('program', '')[:200]!r} impl events {str((ex.get('detail') or {}).get('impl', ''))[:300]} model events {str((ex.get('detail') or {}).get('model', ''))[:300]}")
     def problem(s, kind, text): s.problems.append((kind, text))
 
 def finish(r, checker_cmd, trusted, assumptions):
